@@ -313,11 +313,20 @@ where
     SC: Cache<Result<Arc<[u8]>, Arc<PdfError>>>,
     L: Log
 {
-    fn resolve_flags(&self, r: PlainRef, flags: ParseFlags, _depth: usize) -> Result<Primitive> {
+    fn resolve_flags(&self, r: PlainRef, flags: ParseFlags, depth: usize) -> Result<Primitive> {
         let storage = self.storage;
         storage.log.load_object(r);
 
-        storage.resolve_ref(r, flags, self)
+        match storage.resolve_ref(r, flags, self)? {
+            // an indirect object whose value is again a reference: follow it, within the depth budget
+            Primitive::Reference(next) => {
+                if depth == 0 {
+                    bail!("reference chain too long");
+                }
+                self.resolve_flags(next, flags, depth - 1)
+            }
+            p => Ok(p)
+        }
     }
 
     fn get<T: Object+DataSize>(&self, r: Ref<T>) -> Result<RcRef<T>> {
